@@ -38,7 +38,8 @@ ASSUMPTIONS = ["yield points are source lines of the recoco hand-off "
 REQUIRED = ["schedules", "distinct_interleavings", "preempting_schedules",
             "calllater_functions_checked", "wakes_checked", "sync_sections",
             "lock_programs", "lock_waits", "threaded_hub_runs",
-            "inline_hub_runs", "burst_handoffs"]
+            "inline_hub_runs", "burst_handoffs",
+            "handed_over_functions_that_raise"]
 TIMEOUT = {"quick": 1500, "thorough": 10800}
 
 
@@ -153,16 +154,36 @@ def run_scenario (scn, schedule, policy, seed):
         obs["sched_lid"] = sched._thread.lid
     if scn["start_first"]: start_sched()
     def foreign (tag, ops):
-      seq = 0
-      for op in ops:
-        if op == "cl" or op == "rl":
-          seq += 1
+      ops = list(ops)
+      while ops:
+        op = ops.pop(0)
+        if op == "sbatch":
+          # several hand-overs made while the scheduler is held off, the first
+          # of them a function that fails: they are drained as one batch
+          with sched.synchronized():
+            for sub in ("clx", "cl", "cl"):
+              foreign_op(tag, sub, seqs)
+          continue
+        foreign_op(tag, op, seqs)
+        if not started[0] and not scn["start_first"]:
+          start_sched()
+    seqs = {}
+    EXC = dict(IndexError=IndexError, KeyError=KeyError, ValueError=ValueError,
+               StopIteration=StopIteration, LookupError=LookupError)
+    def foreign_op (tag, op, seqs):
+        if op in ("cl", "rl", "clx"):
+          seq = seqs[tag] = seqs.get(tag, 0) + 1
           obs["pending"] += 1
-          def f (tag=tag, seq=seq):
+          def f (tag=tag, seq=seq, fails=(op == "clx")):
             order[0] += 1
             obs["calls"].append((tag, seq, ctl.me(), order[0]))
             obs["pending"] -= 1
-          if op == "cl":
+            if fails:
+              # a handed-over function that fails is logged and skipped; the
+              # ones behind it still run
+              obs["raised"] = obs.get("raised", 0) + 1
+              raise EXC[scn.get("exc", "ValueError")]("handed-over function fails on purpose")
+          if op in ("cl", "clx"):
             sched.callLater(f)
           else:
             import pox.lib.revent.revent as R
@@ -188,8 +209,6 @@ def run_scenario (scn, schedule, policy, seed):
             ctl.yield_point("inside-sync")
             order[0] += 1
             obs["log"].append(("exit", tag, order[0]))
-        if not started[0] and not scn["start_first"]:
-          start_sched()
     ths = []
     for i, ops in enumerate(scn["threads"]):
       t = ilv.CThread(target=foreign, args=("t%d" % i, ops))
@@ -267,9 +286,10 @@ def judge (scn, obs, fire, rep):
   if obs["ready_dups"]:
     fire("task queued twice at once", repr(obs["ready_dups"][:2])); return
   # call-later functions: exactly once, on the scheduler thread, in order
+  if obs.get("raised"): rep.count("handed_over_functions_that_raise", obs["raised"])
   want = {}
   for i, ops in enumerate(scn["threads"]):
-    n = sum(1 for o in ops if o in ("cl", "rl"))
+    n = sum(1 for o in ops if o in ("cl", "rl", "clx")) + 3 * ops.count("sbatch")
     if n: want["t%d" % i] = n
   got = {}
   for (tag, seq, lid, o) in obs["calls"]:
@@ -377,6 +397,9 @@ SCENARIOS = [
   dict(threads=[["cl", "cl"], ["wake"]], threaded_hub=True, start_first=True, instr=True),
   dict(threads=[["cl"]], threaded_hub=True, start_first=True, napper=3),
   dict(threads=[["wake"], ["cl"]], threaded_hub=True, start_first=True, napper=2),
+  dict(threads=[["sbatch"]], threaded_hub=True, start_first=True, exc="IndexError"),
+  dict(threads=[["clx", "cl"], ["cl"]], threaded_hub=False, start_first=True, exc="StopIteration"),
+  dict(threads=[["sbatch"], ["clx"]], threaded_hub=True, start_first=True, exc="KeyError"),
 ]
 
 
